@@ -124,9 +124,11 @@ def parse(sql):
             cols = []
             while True:
                 cn = p.ident()
-                ty = p.ident() if re.match(r'^[A-Za-z_]', p.peek() or '') and p.up() not in ('PRIMARY', 'NOT', 'UNIQUE') else ''
+                ty = p.ident() if re.match(r'^[A-Za-z_]', p.peek() or '') and p.up() not in ('PRIMARY', 'NOT', 'UNIQUE', 'DEFAULT') else ''
                 pk = False
                 notnull = False
+                dflt = None
+                uniq = False
                 while p.peek() not in (',', ')'):
                     if p.opt('PRIMARY'):
                         p.eat('KEY')
@@ -134,27 +136,41 @@ def parse(sql):
                     elif p.opt('NOT'):
                         p.eat('NULL')
                         notnull = True
+                    elif p.opt('UNIQUE'):
+                        uniq = True
+                    elif p.opt('DEFAULT'):
+                        neg = p.opt('-')
+                        v = p.eat()
+                        if re.match(r'^\d+$', v):
+                            dflt = -int(v) if neg else int(v)
+                        elif v.upper() == 'NULL' and not neg:
+                            dflt = None
+                        else:
+                            raise Unparsed('column constraint DEFAULT %s' % v)
                     else:
                         raise Unparsed('column constraint %s' % p.peek())
-                cols.append((cn, ty.upper(), pk, notnull))
+                cols.append((cn, ty.upper(), pk, notnull, dflt, uniq))
                 if p.opt(','):
                     continue
                 p.eat(')')
                 break
             p.end()
             return ('create_table', name, cols, ine)
+        unique = p.opt('UNIQUE')
         if p.opt('INDEX'):
             if p.opt('IF'):
                 p.eat('NOT')
                 p.eat('EXISTS')
-            p.ident()
+            iname = p.ident()
             p.eat('ON')
             t = p.ident()
             p.eat('(')
-            c = p.ident()
+            cs = [p.ident()]
+            while p.opt(','):
+                cs.append(p.ident())
             p.eat(')')
             p.end()
-            return ('create_index', t, c)
+            return ('create_index', t, cs, unique, iname)
         raise Unparsed('CREATE what')
     if k == 'PRAGMA':
         p.eat('PRAGMA')
@@ -408,11 +424,67 @@ def main():
         w('    (%s, "%s"),' % (rust_str(l), kinds[l]))
     w('];')
     # column metadata
+    cur_src = srcs[0]
+    cur_lits = [l for l in string_literals(open(cur_src).read()) if SQL_START.match(l)]
+    cur_tab, cur_idx = {}, []
+    for l in cur_lits:
+        try:
+            st = parse(l)
+        except Unparsed:
+            continue
+        if st[0] == 'create_table' and st[1] not in cur_tab:
+            cur_tab[st[1]] = st[2]
+        if st[0] == 'create_index':
+            cur_idx.append(st)
+    w('/// constraints and indexes of a database created by the CURRENT source (harness states are such databases)')
+    w('pub const CUR_CONS: [Cons; NT] = [%s];' % (', '.join(cons_expr(cur_tab.get(t, tables[t])) for t in order) or 'NOCONS'))
+    ix = []
+    for t in order:
+        slots = []
+        for st in cur_idx:
+            if st[1] == t:
+                try:
+                    mask = [False] * 6
+                    for cn in st[2]:
+                        mask[col_index(t, cn)] = True
+                    slots.append((index_slot(st[4]), mask, st[3]))
+                except Unparsed:
+                    pass
+        arr = []
+        for k in range(2):
+            hit = [x for x in slots if x[0] == k]
+            if hit:
+                arr.append('Index { exists: true, unique: %s, cols: [%s] }' % ('true' if hit[0][2] else 'false', ', '.join('true' if m else 'false' for m in hit[0][1])))
+            else:
+                arr.append('NOINDEX')
+        ix.append('[' + ', '.join(arr) + ']')
+    w('pub const CUR_INDEXES: [[Index; 2]; NT] = [%s];' % (', '.join(ix) or '[NOINDEX; 2]'))
     w('pub const NCOLS: [usize; NT] = [%s];' % (', '.join(str(len(tables[t])) for t in order) or '0'))
     w('pub const PK_COL: [usize; NT] = [%s];' % (', '.join(str(next((i for i, c in enumerate(tables[t]) if c[2]), 99)) for t in order) or '99'))
     w('pub const AFFINITY: [[Aff; NC]; NT] = [%s];' % (', '.join('[' + ', '.join('Aff::' + AFF.get(tables[t][i][1], 'Numeric') if i < len(tables[t]) else 'Aff::Blob' for i in range(6)) + ']' for t in order) or '[Aff::Blob; NC]'))
     w('pub const COL_NAMES: [[&str; NC]; NT] = [%s];' % (', '.join('[' + ', '.join('"%s"' % tables[t][i][0] if i < len(tables[t]) else '""' for i in range(6)) + ']' for t in order) or '[""; NC]'))
     print('\n'.join(out))
+
+
+INDEX_NAMES = []
+
+
+def index_slot(name):
+    """indexes are identified by NAME (IF NOT EXISTS is about the name): at most two per run"""
+    n = name.lower()
+    if n not in INDEX_NAMES:
+        INDEX_NAMES.append(n)
+    if INDEX_NAMES.index(n) > 1:
+        raise Unparsed('more than two index names')
+    return INDEX_NAMES.index(n)
+
+
+def cons_expr(cols):
+    nn = ', '.join('true' if (i < len(cols) and cols[i][3]) else 'false' for i in range(6))
+    hd = ', '.join('true' if (i < len(cols) and cols[i][4] is not None) else 'false' for i in range(6))
+    dv = ', '.join(str(cols[i][4]) if (i < len(cols) and cols[i][4] is not None) else '0' for i in range(6))
+    uq = ', '.join('true' if (i < len(cols) and cols[i][5]) else 'false' for i in range(6))
+    return 'Cons { notnull: [%s], has_dflt: [%s], dflt: [%s], uniq: [%s] }' % (nn, hd, dv, uq)
 
 
 def rust_str(s):
@@ -478,13 +550,17 @@ def emit(w, name, st, tables, order, col_index):
         raise Unparsed(st[1])
     if k == 'create_table':
         ti = order.index(st[1])
-        same = tables[st[1]] == st[2]
-        w('pub fn %s(c: usize, _p: &Bound) -> StmtResult { create_table(c, %d, %s, %s) }' % (name, ti, 'true' if st[3] else 'false', 'true' if same else 'false'))
+        # "same schema" = same columns, types and key; NOT NULL / DEFAULT / UNIQUE are constraints the
+        # table gets from whichever CREATE actually created it (cons below)
+        same = [c[:3] for c in tables[st[1]]] == [c[:3] for c in st[2]]
+        w('pub fn %s(c: usize, _p: &Bound) -> StmtResult { create_table(c, %d, %s, %s, &%s) }' % (name, ti, 'true' if st[3] else 'false', 'true' if same else 'false', cons_expr(st[2])))
         return 'create_table'
     if k == 'create_index':
-        col_index(st[1], st[2])
-        w('pub fn %s(c: usize, _p: &Bound) -> StmtResult { schema_noop(c, %d) }' % (name, order.index(st[1])))
-        return 'create_index'
+        mask = [False] * 6
+        for cn in st[2]:
+            mask[col_index(st[1], cn)] = True
+        w('pub fn %s(c: usize, _p: &Bound) -> StmtResult { create_index(c, %d, %d, [%s], %s) }' % (name, order.index(st[1]), index_slot(st[4]), ', '.join('true' if m else 'false' for m in mask), 'true' if st[3] else 'false'))
+        return 'create_unique_index' if st[3] else 'create_index'
     if k == 'pragma':
         nm, val = st[1], st[2]
         safe = True
@@ -522,7 +598,7 @@ def emit(w, name, st, tables, order, col_index):
         w('    let mut row = [Val::Null; NC];')
         for j, ci in enumerate(idx):
             w('    row[%d] = p.v[%d];' % (ci, j))
-        w('    insert(c, %d, row, Conflict::%s)' % (ti, conflict.capitalize()))
+        w('    insert(c, %d, row, [%s], Conflict::%s)' % (ti, ', '.join('true' if q in idx else 'false' for q in range(6)), conflict.capitalize()))
         w('}')
         return 'insert' if conflict == 'ABORT' else 'insert_or_' + conflict.lower()
     if k == 'update':
@@ -550,6 +626,7 @@ def emit(w, name, st, tables, order, col_index):
                 w('            new[%d] = store(%d, %d, old[%d]);' % (ci, ti, ci, col_index(t, e[1])))
             elif e[0] == 'colplus':
                 w('            new[%d] = store(%d, %d, sql_add(&old[%d], %d));' % (ci, ti, ci, col_index(t, e[1]), e[2]))
+        w('            if let Some(e) = check_row(%d, i, &new) { return e; }' % ti)
         w('            db().t[%d].rows[i] = new; n += 1;' % ti)
         w('        }')
         w('        i += 1;')
